@@ -54,7 +54,26 @@ def gen_cases(tier, seed):
 def run_special(tier, seed, workdir):
     """fresh interpreter: import-time event log vs registry / AST / vocabulary"""
     res = []
-    p = subprocess.run([env.PY, "-m", "vf.tools.import_log"], cwd=env.VERIF, env=env.child_env(), capture_output=True, text=True, timeout=300)
+    # which name do the rule definitions use for the registration decorator, and what is it called in ctparse/rule.py?
+    src = os.path.join(env.REPO, "ctparse", "time", "rules.py")
+    tree = ast.parse(open(src, encoding="utf-8").read())
+    imported = {}
+    for node in tree.body:
+        if isinstance(node, ast.ImportFrom) and (node.module or "").split(".")[-1] == "rule":
+            for a in node.names:
+                imported[a.asname or a.name] = a.name
+    used = {}
+    for node in ast.walk(tree):
+        if isinstance(node, ast.FunctionDef):
+            for dec in node.decorator_list:
+                f = dec.func if isinstance(dec, ast.Call) else dec
+                if isinstance(f, ast.Name) and f.id in imported:
+                    used[f.id] = used.get(f.id, 0) + 1
+    if not used:
+        return [{"st": "inconc", "msg": "no definition in ctparse/time/rules.py is decorated with a name imported from the rule module: the registration function cannot be identified"}], []
+    deco = set(used)
+    p = subprocess.run([env.PY, "-m", "vf.tools.import_log"], cwd=env.VERIF, env=env.child_env({"VF_RULE_FN": ",".join(sorted(set(imported[d] for d in deco)))}),
+                       capture_output=True, text=True, timeout=300)
     if p.returncode != 0:
         return [{"st": "inconc", "msg": "import log subprocess failed: %s" % p.stderr[-800:]}], []
     d = json.loads(p.stdout)
@@ -70,15 +89,13 @@ def run_special(tier, seed, workdir):
         problems.append(("registry-differs-from-log", "registry and registration log differ: %s" % sorted(set(names) ^ set(d["registry"]))))
     if len(calls) != len(regs):
         problems.append(("rule-call-without-registration", "%d rule() calls but %d registrations" % (len(calls), len(regs))))
-    # syntax tree: definitions decorated with @rule in the rule module (cross-check of the count and the names)
-    src = os.path.join(env.REPO, "ctparse", "time", "rules.py")
-    tree = ast.parse(open(src, encoding="utf-8").read())
+    # syntax tree: definitions decorated with the registration decorator in the rule module (cross-check of count and names)
     defs = []
     for node in ast.walk(tree):
         if isinstance(node, ast.FunctionDef):
             for dec in node.decorator_list:
                 f = dec.func if isinstance(dec, ast.Call) else dec
-                if isinstance(f, ast.Name) and f.id == "rule":
+                if isinstance(f, ast.Name) and f.id in deco:
                     defs.append(node.name)
     in_rules_py = [e["name"] for e in regs if e["file"] == os.path.join("ctparse", "time", "rules.py")]
     if sorted(defs) != sorted(in_rules_py):
